@@ -1,6 +1,6 @@
 (* Extraction of the KDF models to OCaml: ExtrOcamlBasic only (bool, option, unit, list, prod, sumbool, sumor
    mapped to OCaml's own); Z, positive, nat stay the extracted inductives; no Extract Constant. *)
 Require Import ExtrOcamlBasic.
-Require Import GC.Extract.Wrap.
+Require Import GC.Extract.Wrap GC.Extract.WrapKdf.
 Extraction "kdf.ml" x_md5crypt x_md5crypt_spec x_sha256crypt x_sha256crypt_spec x_sha512crypt x_sha512crypt_spec
-  x_sha1crypt x_sunmd5 x_nt_encode x_bcrypt x_bcrypt_spec x_des x_desext x_argon2 x_argon2_block x_argon2_index.
+  x_sha1crypt x_sunmd5 x_nt_encode x_bcrypt x_bcrypt_spec x_des x_desext x_argon2 x_argon2_block x_argon2_index x_kdf.
